@@ -37,6 +37,20 @@
 (*                 hand-over the writer answers the request in hand;       *)
 (*                 FALSE (anti-vacuity): it answers the placeholder, which *)
 (*                 nobody waits for, and the request is lost               *)
+(*   DrainAfterStopped - TRUE (the code): a sender that finds the          *)
+(*                 connection gone after its enqueue drains the queues     *)
+(*                 only once `stopped` is closed, i.e. after both loops    *)
+(*                 have exited; FALSE (anti-vacuity): as soon as `quit` is *)
+(*                 closed - it then takes requests out of the processing   *)
+(*                 queue while the reader still pairs buffered replies     *)
+(*                 with its head: a request gets the reply of another      *)
+(*   FilteredFailAnswers - FALSE (the code): when the flush behind a       *)
+(*                 request that the filter chain answered itself fails,    *)
+(*                 the writer just exits; TRUE (anti-vacuity): it goes to  *)
+(*                 the FAIL label and answers the request in hand, which   *)
+(*                 has been answered already (second completion)           *)
+(* Replies carry the identity of the request they answer: res[r] is "err"  *)
+(* or the identity of the reply that was delivered to r (OwnReply).        *)
 (***************************************************************************)
 EXTENDS Naturals, Sequences, FiniteSets, TLC
 
@@ -46,6 +60,8 @@ CONSTANTS Reqs,        \* request identities
           Banned,      \* requests the filter chain answers itself (commands disabled in compress mode)
           Asking,      \* requests that arrive with the asking mark (redirected here by -ASK)
           AskAnswersInHand, \* the writer answers the request in hand when quit wins the ASKING hand-over
+          DrainAfterStopped,   \* Send re-drains only after `stopped` (FALSE: after `quit`)
+          FilteredFailAnswers, \* a failed flush behind a filter-answered request answers that request again
           BufCap,      \* complete requests the write buffer holds before it flushes by itself (code: 4096 bytes, i.e.
                        \* fewer than 300 requests against 1024 queue entries; a faithful scaling keeps BufCap < QCap,
                        \* otherwise a full processing queue could consist of unflushed requests only)
@@ -68,7 +84,7 @@ VARIABLES
   stopped,           \* latch closed by Start before the final drain (repaired code only)
   connOpen,          \* the TCP connection is usable
   w, wreq,           \* writer pc, request in hand
-  rd, rreq,          \* reader pc, request paired with the decoded reply
+  rd, rreq,          \* reader pc, <<request, reply>> paired by the reader
   wbuf,              \* requests encoded into the 4 KiB write buffer, not yet flushed
   wire,              \* requests written to the socket and not yet answered by the backend
   replies,           \* replies on their way to the reader (request ids)
@@ -78,7 +94,7 @@ VARIABLES
   sdr,               \* sender's self-drain: request taken out, about to be answered
   stp,               \* stopper pc
   compl,             \* number of SetResponse calls per request
-  res,               \* outcome per request: "none" | "ok" | "err"
+  res,               \* outcome per request: "none" | "err" | the identity of the reply delivered to it
   resets             \* connection faults so far
 
 vars == <<pend, proc, quit, done, stopped, connOpen, w, wreq, rd, rreq, wbuf, wire, replies,
@@ -88,7 +104,7 @@ TypeOK ==
   /\ pend \in Seq(Reqs) /\ proc \in Seq(Items) /\ Len(pend) <= QCap /\ Len(proc) <= QCap
   /\ Len(wbuf) <= BufCap
   /\ quit \in BOOLEAN /\ done \in BOOLEAN /\ stopped \in BOOLEAN /\ connOpen \in BOOLEAN
-  /\ w \in {"select", "have", "asked", "handoff", "exited"}
+  /\ w \in {"select", "have", "filtered", "asked", "handoff", "exited"}
   /\ rd \in {"decode", "decoded", "paired", "exited"}
   /\ main \in {"run", "readDone", "quitClosed", "writeDone", "drained", "done"}
   /\ stp \in {"idle", "stop", "wait", "waitDone", "ret"}
@@ -97,7 +113,7 @@ TypeOK ==
 Init ==
   /\ pend = <<>> /\ proc = <<>> /\ quit = FALSE /\ done = FALSE /\ stopped = FALSE
   /\ connOpen = TRUE
-  /\ w = "select" /\ wreq = NoReq /\ rd = "decode" /\ rreq = NoReq
+  /\ w = "select" /\ wreq = NoReq /\ rd = "decode" /\ rreq = <<NoReq, NoReq>>
   /\ wbuf = <<>> /\ wire = <<>> /\ replies = <<>>
   /\ main = "run" /\ mdr = NoReq
   /\ spc = [r \in Reqs |-> "idle"] /\ sdr = [r \in Reqs |-> NoReq]
@@ -148,7 +164,7 @@ SendEnqueue(r) ==
 (* its final drain, drain again so that the request just queued is answered *)
 SendRecheck(r) ==
   /\ FixSend /\ spc[r] = "enqueued"
-  /\ spc' = [spc EXCEPT ![r] = IF stopped THEN "selfdrain" ELSE "done"]
+  /\ spc' = [spc EXCEPT ![r] = IF (IF DrainAfterStopped THEN stopped ELSE quit) THEN "selfdrain" ELSE "done"]
   /\ UNCHANGED <<pend, proc, quit, done, stopped, connOpen, w, wreq, rd, rreq, wbuf, wire, replies,
                  main, mdr, sdr, stp, compl, res, resets>>
 
@@ -186,11 +202,20 @@ WriterSelect ==
 (* flush ends the writer (the buffered requests are in processingReqs and are drained by Start)         *)
 WriterFiltered ==
   /\ w = "have" /\ wreq \in Banned
-  /\ Complete(wreq, "err") /\ wreq' = NoReq
+  /\ Complete(wreq, "err") /\ w' = "filtered"
+  /\ UNCHANGED <<pend, proc, quit, done, stopped, connOpen, wreq, rd, rreq, wbuf, wire, replies, main, mdr, spc, sdr, stp, resets>>
+
+(* point client.loopWrite.filtered: the flush behind the request that the filter answered.  A failing flush ends the   *)
+(* writer (the buffered requests are in processingReqs and are drained by Start); the request in hand has been         *)
+(* answered, nothing is left to do for it (FilteredFailAnswers: it is answered once more at the FAIL label).           *)
+WriterFilteredFlush ==
+  /\ w = "filtered" /\ wreq' = NoReq
   /\ IF FixFlushOnStop /\ pend = <<>> /\ wbuf # <<>>
-       THEN IF connOpen THEN /\ wire' = wire \o wbuf /\ wbuf' = <<>> /\ w' = "select"
-                        ELSE /\ wbuf' = <<>> /\ w' = "exited" /\ UNCHANGED wire
-       ELSE /\ w' = "select" /\ UNCHANGED <<wire, wbuf>>
+       THEN \/ /\ connOpen /\ wire' = wire \o wbuf /\ wbuf' = <<>> /\ w' = "select" /\ UNCHANGED <<compl, res>>
+            \/ /\ ~connOpen /\ ~Det /\ wbuf' = <<>> /\ w' = "select" /\ UNCHANGED <<wire, compl, res>>
+            \/ /\ ~connOpen /\ wbuf' = <<>> /\ w' = "exited" /\ UNCHANGED wire
+               /\ IF FilteredFailAnswers THEN Complete(wreq, "err") ELSE UNCHANGED <<compl, res>>
+       ELSE /\ w' = "select" /\ UNCHANGED <<wire, wbuf, compl, res>>
   /\ UNCHANGED <<pend, proc, quit, done, stopped, connOpen, rd, rreq, replies, main, mdr, spc, sdr, stp, resets>>
 
 (* point client.loopWrite.got, request with the asking mark: ASKING is encoded into the write buffer  *)
@@ -282,7 +307,7 @@ ReaderDecode ==
 (* code: plain receive.  Repaired code: select {receive | quit -> return}.  *)
 ReaderPair ==
   /\ rd = "decoded"
-  /\ \/ /\ proc # <<>> /\ rreq' = Head(proc) /\ proc' = Tail(proc) /\ rd' = "paired"
+  /\ \/ /\ proc # <<>> /\ rreq' = <<Head(proc), Head(replies)>> /\ proc' = Tail(proc) /\ rd' = "paired"
         /\ replies' = Tail(replies)
      \/ /\ FixReader /\ quit /\ rd' = "exited" /\ UNCHANGED <<rreq, proc, replies>>
   /\ UNCHANGED <<pend, quit, done, stopped, connOpen, w, wreq, wbuf, wire, main, mdr, spc, sdr, stp,
@@ -291,7 +316,7 @@ ReaderPair ==
 (* point client.loopRead.paired: handleResp -> SetResponse                  *)
 ReaderHandle ==
   /\ rd = "paired"
-  /\ CompleteItem(rreq, "ok") /\ rreq' = NoReq /\ rd' = "decode"
+  /\ CompleteItem(rreq[1], rreq[2]) /\ rreq' = <<NoReq, NoReq>> /\ rd' = "decode"
   /\ UNCHANGED <<pend, proc, quit, done, stopped, connOpen, w, wreq, wbuf, wire, replies, main, mdr, spc,
                  sdr, stp, resets>>
 
@@ -359,7 +384,7 @@ StopReturn ==
 
 -----------------------------------------------------------------------------
 SenderNext(r) == SendCheck(r) \/ SendEnqueue(r) \/ SendRecheck(r) \/ SendDrainTake(r) \/ SendDrainAnswer(r)
-WriterNext == WriterSelect \/ WriterFiltered \/ WriterAsk \/ WriterEncode \/ WriterHandoff
+WriterNext == WriterSelect \/ WriterFiltered \/ WriterFilteredFlush \/ WriterAsk \/ WriterEncode \/ WriterHandoff
 ReaderNext == ReaderDecode \/ ReaderPair \/ ReaderHandle
 MainNext == MainAfterRead \/ MainWaitWrite \/ MainDrainTake \/ MainDrainAnswer \/ MainDone
 StopNext == StopQuit \/ StopClose \/ StopReturn
@@ -391,6 +416,9 @@ NoStuckSender == Stuck => \A r \in Reqs : spc[r] \in {"idle", "done"}
 \* the reply handed to a request is the reply to that request
 PairingFIFO == rd = "decoded" /\ proc # <<>> => Head(proc) = Head(replies)
 
+\* the reply delivered to a request is the backend's answer to that request
+OwnReply == \A r \in Reqs : res[r] \in {"none", "err", r}
+
 \* every request handed to Send is eventually answered (liveness, under fairness)
 Answered == \A r \in Reqs : (spc[r] = "send") ~> (compl[r] = 1)
 
@@ -407,6 +435,8 @@ W_SenderBlockedOnDeadQueue == \E r \in Reqs : spc[r] = "checked" /\ Len(pend) = 
 W_AskHandoffQuit == w = "have" /\ wreq \in Asking /\ quit
 W_AskHandoffBlocked == w = "have" /\ wreq \in Asking /\ Len(proc) = QCap /\ ~quit
 W_ReaderHoldsReplyAtQuit == rd = "decoded" /\ proc = <<>> /\ quit
+W_SenderEnqueuedAtQuit == \E r \in Reqs : spc[r] = "enqueued" /\ quit /\ ~stopped
+W_FilteredFlushOnDeadConn == w = "filtered" /\ pend = <<>> /\ wbuf # <<>> /\ ~connOpen
 NotW1 == ~W_CheckedThenQuit
 NotW2 == ~W_EnqueueAfterDrain
 NotW3 == ~W_WriterHandoffQuit
